@@ -1,32 +1,10 @@
 //! Standard-library stubs (DESIGN.md §3.1). Only `std` functions are ever stubbed, never
 //! rosu-map's. Each stub is validated natively against the real function by
-//! `tests/stub_validation.rs` (through the `*_model` functions below, which are the same code).
+//! `tests/model_validation.rs` (the `*_model` functions live in util.rs so that they also compile natively).
 
 use core::num::{ParseFloatError, ParseIntError};
 
-/// Model of `core::slice::memchr::memchr`: index of the first `x` in `text`.
-pub fn memchr_model(x: u8, text: &[u8]) -> Option<usize> {
-    let mut i = 0;
-    while i < text.len() {
-        if text[i] == x {
-            return Some(i);
-        }
-        i += 1;
-    }
-    None
-}
-
-/// Model of `core::slice::memchr::memrchr`: index of the last `x` in `text`.
-pub fn memrchr_model(x: u8, text: &[u8]) -> Option<usize> {
-    let mut i = text.len();
-    while i > 0 {
-        i -= 1;
-        if text[i] == x {
-            return Some(i);
-        }
-    }
-    None
-}
+pub use crate::util::{memchr_model, memrchr_model};
 
 // ------------------------------------------------------------------------------------------
 // Number oracle: `str::parse::<T>()` returns `Err` or an arbitrary `T`, consistently per token.
